@@ -872,3 +872,447 @@ Proof.
     rewrite E1. exact N1.
 Qed.
 Print Assumptions request_calls_nodup.
+
+(* ------------------------------------------------------------------------------------------ *)
+(* (C) error paths address a null of the response                                             *)
+(* ------------------------------------------------------------------------------------------ *)
+(* null_on_path (Run/ExecRun.v) on responses under construction *)
+Fixpoint qnull_on (q : presp) (r : path) {struct r} : bool :=
+  match q with
+  | QNull => true
+  | _ =>
+    match r with
+    | [] => false
+    | PKey k :: r' => match q with
+                      | QObj l => match alookup k l with Some x => qnull_on x r' | None => false end
+                      | _ => false
+                      end
+    | PIdx i :: r' => match q with
+                      | QList l => match nth_error l (N.to_nat i) with Some x => qnull_on x r' | None => false end
+                      | _ => false
+                      end
+    end
+  end.
+
+Lemma qnull_on_null : forall r, qnull_on QNull r = true.
+Proof. intros [|[k|i] r]; reflexivity. Qed.
+
+Lemma alookup_in_keys : forall A k (l : list (name * A)) x, alookup k l = Some x -> In k (map fst l).
+Proof.
+  intros A k l x. induction l as [|[k' v] l IH]; cbn; intros H; [discriminate|].
+  destruct (String.eqb k k') eqn:Ek; [left; symmetry; apply String.eqb_eq; exact Ek|right; apply IH; exact H].
+Qed.
+
+Lemma alookup_map_snd : forall A B (f : A -> B) k (l : list (name * A)),
+  alookup k (map (fun kv => (fst kv, f (snd kv))) l) = option_map f (alookup k l).
+Proof.
+  intros A B f k l. induction l as [|[k' v] l IH]; cbn; [reflexivity|].
+  destruct (String.eqb k k'); [reflexivity|exact IH].
+Qed.
+
+Lemma qnull_obj_head : forall k y ys r, qnull_on y r = true -> qnull_on (QObj ((k, y) :: ys)) (PKey k :: r) = true.
+Proof. intros k y ys r H. cbn. rewrite String.eqb_refl. exact H. Qed.
+
+Lemma qnull_obj_cons : forall k y ys r, ~ In k (map fst ys) ->
+  qnull_on (QObj ys) r = true -> qnull_on (QObj ((k, y) :: ys)) r = true.
+Proof.
+  intros k y ys [|[k0|i] r] Hk H; cbn in H |- *; try discriminate.
+  destruct (String.eqb k0 k) eqn:Ek; [|exact H].
+  apply String.eqb_eq in Ek. subst k0. exfalso. apply Hk.
+  destruct (alookup k ys) as [x|] eqn:Ea; [|discriminate]. eapply alookup_in_keys. exact Ea.
+Qed.
+
+(* the walk carries over to the final response *)
+Lemma qnull_to_resp : forall r q, qnull_on q r = true -> null_on_path (to_resp q) r = true.
+Proof.
+  induction r as [|a r IH]; intros q H.
+  - destruct q; cbn in H |- *; try discriminate; reflexivity.
+  - destruct a as [k|i]; destruct q as [|v|l|l|t nodes occs tp o]; cbn in H |- *; try discriminate; try reflexivity.
+    + rewrite alookup_map_snd. destruct (alookup k l) as [x|]; cbn; [apply IH; exact H|discriminate].
+    + rewrite nth_error_map. destruct (nth_error l (N.to_nat i)) as [x|]; cbn; [apply IH; exact H|discriminate].
+Qed.
+
+Definition qn_nth (l : list presp) (j : nat) (r : path) : bool :=
+  match nth_error l j with Some x => qnull_on x r | None => false end.
+
+(* an error recorded below b, and the null the response q (at b) holds on its path *)
+Definition eok (b : path) (q : presp) (e : gerr) : Prop := exists r, e_path e = b ++ r /\ qnull_on q r = true.
+Definition eokL (b : path) (i : N) (ys : list presp) (e : gerr) : Prop :=
+  exists j r, e_path e = b ++ PIdx (i + N.of_nat j) :: r /\ qn_nth ys j r = true.
+Definition eokF (b : path) (fs : list (name * presp)) (e : gerr) : Prop := eok b (QObj fs) e.
+Definition eokO (b : path) (y : option presp) (e : gerr) : Prop :=
+  match y with Some q => eok b q e | None => False end.
+
+Lemma eokL_head : forall b i y ys e, eok (b ++ [PIdx i]) y e -> eokL b i (y :: ys) e.
+Proof.
+  intros b i y ys e [r [H1 H2]]. exists 0%nat, r. split.
+  - rewrite H1, <- app_assoc. cbn. rewrite N.add_0_r. reflexivity.
+  - exact H2.
+Qed.
+
+Lemma eokL_tail : forall b i y ys e, eokL b (i + 1) ys e -> eokL b i (y :: ys) e.
+Proof.
+  intros b i y ys e [j [r [H1 H2]]]. exists (S j), r. split; [|exact H2].
+  rewrite H1. do 3 f_equal. rewrite Nat2N.inj_succ. lia.
+Qed.
+
+Lemma eokL_list : forall b ys e, eokL b 0 ys e -> eok b (QList ys) e.
+Proof.
+  intros b ys e [j [r [H1 H2]]]. exists (PIdx (0 + N.of_nat j) :: r). split; [exact H1|].
+  cbn. rewrite Nat2N.id. exact H2.
+Qed.
+
+Lemma eokF_head : forall b k y ys e, eok (b ++ [PKey k]) y e -> eokF b ((k, y) :: ys) e.
+Proof.
+  intros b k y ys e [r [H1 H2]]. exists (PKey k :: r). split.
+  - rewrite H1, <- app_assoc. reflexivity.
+  - apply qnull_obj_head. exact H2.
+Qed.
+
+Lemma eokF_tail : forall b k y ys e, ~ In k (map fst ys) -> eokF b ys e -> eokF b ((k, y) :: ys) e.
+Proof.
+  intros b k y ys e Hk [r [H1 H2]]. exists r. split; [exact H1|]. apply qnull_obj_cons; assumption.
+Qed.
+
+Definition eres {A : Type} (OK : A -> gerr -> Prop) (s : st) (r : xres A) : Prop :=
+  match r with
+  | XOk a s' => exists es, st_errs s' = st_errs s ++ es /\ Forall (OK a) es
+  | _ => True
+  end.
+
+(* a raise and the errors recorded before it lie under b *)
+Definition rinv {A : Type} (b : path) (s : st) (r : xres A) : Prop :=
+  match r with
+  | XRaise e s' => (exists es, st_errs s' = st_errs s ++ es /\ Forall (fun e0 => prefix b (e_path e0)) es) /\
+                   prefix b (e_path e)
+  | _ => True
+  end.
+
+Lemma inv1_rinv : forall b s r, inv1 b s r -> rinv b s r.
+Proof. intros b s [q s'|e s'|] H; cbn in *; auto. destruct H as [[_ He] Hp]. split; assumption. Qed.
+
+Lemma eres_ok_nil : forall A (OK : A -> gerr -> Prop) s a, eres OK s (XOk a s).
+Proof. intros. cbn. exists []. rewrite app_nil_r. split; constructor. Qed.
+
+Lemma eres_errs_eq : forall A (OK : A -> gerr -> Prop) s0 s r,
+  st_errs s = st_errs s0 -> eres OK s r -> eres OK s0 r.
+Proof. intros A OK s0 s [a s'|e s'|] He H; cbn in *; auto; rewrite <- He; exact H. Qed.
+
+Lemma rinv_errs_eq : forall A b s0 s (r : xres A), st_errs s = st_errs s0 -> rinv b s r -> rinv b s0 r.
+Proof. intros A b s0 s [a s'|e s'|] He H; cbn in *; auto; rewrite <- He; exact H. Qed.
+
+Lemma eres_catch : forall b s t r, rinv b s r -> eres (eok b) s r -> eres (eok b) s (catch_at t r).
+Proof.
+  intros b s t [q s'|e s'|] Hr H; cbn in *; auto.
+  destruct (is_nonnull t); cbn; [exact I|].
+  destruct Hr as [[es [E F]] Hp]. exists (es ++ [e]). split; [rewrite E, app_assoc; reflexivity|].
+  apply Forall_app. split.
+  - eapply Forall_impl; [|exact F]. intros e0 [r Hr]. exists r. split; [exact Hr|apply qnull_on_null].
+  - constructor; [|constructor]. destruct Hp as [r Hr]. exists r. split; [exact Hr|apply qnull_on_null].
+Qed.
+
+Lemma items_loop_errs : forall cmp b,
+  (forall i x s, eres (eok (b ++ [PIdx i])) s (cmp i x s)) ->
+  forall l i s, eres (eokL b i) s (items_loop cmp l i s).
+Proof.
+  intros cmp b Hc. induction l as [|x l IH]; intros i s; cbn [items_loop].
+  - apply eres_ok_nil.
+  - specialize (Hc i x s). destruct (cmp i x s) as [y s'|e s'|]; cbn in Hc |- *; auto.
+    destruct Hc as [es1 [E1 F1]]. specialize (IH (i + 1)%N s').
+    destruct (items_loop cmp l (i + 1)%N s') as [ys s''|e s''|]; cbn in IH |- *; auto.
+    destruct IH as [es2 [E2 F2]]. exists (es1 ++ es2). rewrite E2, E1, app_assoc. split; [reflexivity|].
+    apply Forall_app. split.
+    + eapply Forall_impl; [|exact F1]. intros e He. apply eokL_head. exact He.
+    + eapply Forall_impl; [|exact F2]. intros e He. apply eokL_tail. exact He.
+Qed.
+
+(* forcing keeps the nulls where they are and puts the new errors' nulls in place *)
+Definition deres (b : path) (q : presp) (s : st) (r : xres presp) : Prop :=
+  match r with
+  | XOk q' s' => (forall r0, qnull_on q r0 = true -> qnull_on q' r0 = true) /\
+                 exists es, st_errs s' = st_errs s ++ es /\ Forall (eok b q') es
+  | _ => True
+  end.
+
+Lemma dethunk_list_errs : forall f,
+  (forall b x s, Pos b x -> deres b x s (f x s)) ->
+  forall l b i s, PosL b i l ->
+    match dethunk_list f l s with
+    | XOk ys s' => (forall j r, qn_nth l j r = true -> qn_nth ys j r = true) /\
+                   exists es, st_errs s' = st_errs s ++ es /\ Forall (eokL b i ys) es
+    | _ => True
+    end.
+Proof.
+  intros f Hf. induction l as [|x l IH]; intros b i s Hl; cbn [dethunk_list].
+  - split; [auto|]. exists []. rewrite app_nil_r. split; constructor.
+  - destruct (PosL_cons_inv _ _ _ _ Hl) as [Hy Hr]. specialize (Hf _ x s Hy).
+    destruct (f x s) as [y s'|e s'|]; cbn in Hf |- *; auto.
+    destruct Hf as [S1 [es1 [E1 F1]]]. specialize (IH b (i + 1)%N s' Hr).
+    destruct (dethunk_list f l s') as [ys s''|e s''|]; auto.
+    destruct IH as [S2 [es2 [E2 F2]]]. split.
+    + intros [|j] r H; unfold qn_nth in *; cbn [nth_error] in *; [apply S1; exact H|apply (S2 j r); exact H].
+    + exists (es1 ++ es2). rewrite E2, E1, app_assoc. split; [reflexivity|].
+      apply Forall_app. split.
+      * eapply Forall_impl; [|exact F1]. intros e He. apply eokL_head. exact He.
+      * eapply Forall_impl; [|exact F2]. intros e He. apply eokL_tail. exact He.
+Qed.
+
+Lemma dethunk_fields_errs : forall f,
+  (forall b x s, Pos b x -> deres b x s (f x s)) ->
+  forall l b s, PosF b l -> NoDup (map fst l) ->
+    match dethunk_fields f l s with
+    | XOk ys s' => map fst ys = map fst l /\
+                   (forall r, qnull_on (QObj l) r = true -> qnull_on (QObj ys) r = true) /\
+                   exists es, st_errs s' = st_errs s ++ es /\ Forall (eokF b ys) es
+    | _ => True
+    end.
+Proof.
+  intros f Hf. induction l as [|[k x] l IH]; intros b s Hl Hn; cbn [dethunk_fields].
+  - split; [reflexivity|]. split; [auto|]. exists []. rewrite app_nil_r. split; constructor.
+  - destruct (PosF_cons_inv _ _ _ _ Hl) as [Hy Hr]. specialize (Hf _ x s Hy).
+    cbn [map fst] in Hn. inversion Hn as [|? ? Hk Hn']; subst.
+    destruct (f x s) as [y s'|e s'|]; cbn in Hf |- *; auto.
+    destruct Hf as [S1 [es1 [E1 F1]]]. specialize (IH b s' Hr Hn').
+    destruct (dethunk_fields f l s') as [ys s''|e s''|]; auto.
+    destruct IH as [M2 [S2 [es2 [E2 F2]]]]. split; [cbn [map fst]; rewrite M2; reflexivity|]. split.
+    + intros [|[k0|i] r] H; cbn in H |- *; try discriminate.
+      destruct (String.eqb k0 k) eqn:Ek; [apply S1; exact H|].
+      apply (S2 (PKey k0 :: r)). exact H.
+    + exists (es1 ++ es2). rewrite E2, E1, app_assoc. split; [reflexivity|].
+      apply Forall_app. split.
+      * eapply Forall_impl; [|exact F1]. intros e He. apply eokF_head. exact He.
+      * eapply Forall_impl; [|exact F2]. intros e He. apply eokF_tail; [rewrite M2; exact Hk|exact He].
+Qed.
+
+Lemma exec_field_eres : forall fuel E obj src k occs p s,
+  (forall t nodes occs0 fpath p0 v s0, eres (eok p0) s0 (complete fuel E t nodes occs0 fpath p0 v s0)) ->
+  (forall q s0 b, Pos b q -> deres b q s0 (dethunk fuel E q s0)) ->
+  eres (eokO (p ++ [PKey k])) s (exec_field fuel (complete fuel E) (dethunk fuel E) E obj src k occs p s).
+Proof.
+  intros fuel E obj src k occs p s IHc IHd.
+  destruct (pos_inv fuel) as [PAc [_ [_ PAd]]].
+  destruct (exec_inv fuel) as [XIc [_ [_ XId]]].
+  unfold exec_field.
+  set (fname := match occs with o :: _ => oc_name o | [] => "" end).
+  set (fargs := match occs with o :: _ => oc_args o | [] => [] end).
+  set (nodes := map oc_id occs).
+  set (fp := p ++ [PKey k]).
+  destruct (String.eqb fname "__typename"); [apply eres_ok_nil|].
+  destruct (find_field fname (object_fields (en_S E) obj)) as [fd|]; [|apply eres_ok_nil].
+  destruct (get_argument_values fuel (en_S E) (f_args fd) fargs (Some (en_vars E))) as [args|]; [|exact I].
+  set (s1 := add_call _ s).
+  destruct (match en_or E fp with Some o => force o | None => (OVal RNull, false) end) as [o thunked].
+  set (s2 := match en_or E fp with Some _ => s1 | None => add_missing fp s1 end).
+  assert (Hs2 : st_errs s2 = st_errs s).
+  { unfold s2, s1. destruct (en_or E fp); reflexivity. }
+  set (c0 := match o with
+             | OVal v => complete fuel E (f_type fd) nodes occs fp fp v s2
+             | _ => XRaise {| e_path := fp; e_nodes := nodes |} s2
+             end).
+  assert (Hc0 : eres (eok fp) s2 c0 /\ rinv fp s2 c0 /\ posr fp c0).
+  { unfold c0.
+    destruct o; try (split; [exact I|split; [|exact I]]; cbn; split;
+                     [exists []; rewrite app_nil_r; split; constructor|apply prefix_refl]).
+    split; [apply IHc|split; [apply inv1_rinv; apply XIc|apply PAc]]. }
+  set (r1 := if thunked && negb (is_nonnull (f_type fd))
+             then XOk (QThunk (f_type fd) nodes occs fp o) s2
+             else match c0 with
+                  | XRaise e s' => if thunked then XRaise e (set_escape s') else c0
+                  | _ => c0
+                  end).
+  assert (Hr1 : eres (eok fp) s2 r1 /\ rinv fp s2 r1 /\ posr fp r1).
+  { unfold r1. destruct (thunked && negb (is_nonnull (f_type fd))) eqn:Et.
+    - split; [apply eres_ok_nil|split; [exact I|]]. cbn. constructor.
+      apply andb_true_iff in Et. destruct Et as [_ Et]. destruct (is_nonnull (f_type fd)); [discriminate|reflexivity].
+    - destruct Hc0 as [H1 [H2 H3]].
+      destruct c0 as [q0 s0|e0 s0|]; [split; [assumption|split; assumption]| |split; [exact I|split; exact I]].
+      destruct thunked; [|split; [assumption|split; assumption]].
+      split; [exact I|split; [exact H2|exact I]]. }
+  destruct Hr1 as [Hr1 [Rr1 Pr1]].
+  pose proof (eres_catch fp s2 (f_type fd) r1 Rr1 Hr1) as Hcatch.
+  pose proof (posr_catch fp (f_type fd) r1 Pr1) as Pcatch.
+  destruct (catch_at (f_type fd) r1) as [y s'|e s'|]; cbn in Pcatch; [|exact I|exact I].
+  cbn in Hcatch. destruct Hcatch as [es1 [E1 F1]]. rewrite Hs2 in E1.
+  destruct (en_serial E && match p with [] => true | _ :: _ => false end).
+  - pose proof (IHd y s' fp Pcatch) as Hd.
+    destruct (dethunk fuel E y s') as [y' s''|e s''|]; cbn in Hd |- *; [|exact I|exact I].
+    destruct Hd as [St [es2 [E2 F2]]].
+    exists (es1 ++ es2). rewrite E2, E1, app_assoc. split; [reflexivity|].
+    apply Forall_app. split; [|exact F2].
+    eapply Forall_impl; [|exact F1]. intros e [r [R1 R2]]. exists r. split; [exact R1|apply St; exact R2].
+  - cbn. exists es1. split; [exact E1|exact F1].
+Qed.
+
+Definition PC (fuel : nat) : Prop :=
+  (forall E t nodes occs fpath p v s, eres (eok p) s (complete fuel E t nodes occs fpath p v s)) /\
+  (forall E obj occs p src s, eres (eok p) s (exec_object fuel E obj occs p src s)) /\
+  (forall E obj src g p s, NoDup (map fst g) -> eres (eokF p) s (exec_groups fuel E obj src g p s)) /\
+  (forall E q s b, Pos b q -> deres b q s (dethunk fuel E q s)).
+
+Lemma errs_inv : forall fuel, PC fuel.
+Proof.
+  induction fuel as [|fuel [IHc [IHo [IHg IHd]]]].
+  - repeat split; intros; exact I.
+  - destruct (pos_inv fuel) as [PAc [PAo [PAg PAd]]].
+    destruct (exec_inv fuel) as [XIc [_ [_ XId]]].
+    repeat split.
+    + (* complete *)
+      intros E t nodes occs fpath p v s. cbn [complete].
+      destruct t as [n|t'|t'].
+      * destruct (rv_nullish v); [apply eres_ok_nil|].
+        destruct (lookup_type (en_S E) n) as [[k|vals|fs ifs|fs|ms|fs]|].
+        -- apply eres_ok_nil.
+        -- apply eres_ok_nil.
+        -- apply IHo.
+        -- destruct (en_tor E v) as [rt|]; [|exact I].
+           destruct (possible_type (en_S E) n rt); [|exact I].
+           apply (eres_errs_eq _ _ s (add_tcall (fpath, v) s) _ eq_refl). apply IHo.
+        -- destruct (en_tor E v) as [rt|]; [|exact I].
+           destruct (possible_type (en_S E) n rt); [|exact I].
+           apply (eres_errs_eq _ _ s (add_tcall (fpath, v) s) _ eq_refl). apply IHo.
+        -- exact I.
+        -- exact I.
+      * destruct (rv_nullish v); [apply eres_ok_nil|].
+        destruct v; try exact I.
+        pose proof (items_loop_errs
+                      (fun i x s0 => catch_at t' (complete fuel E t' nodes occs fpath (p ++ [PIdx i]) x s0)) p) as HL.
+        match goal with |- eres _ s (match items_loop ?c ?l0 ?i0 ?s0 with _ => _ end) =>
+          specialize (HL (fun i x s1 => eres_catch (p ++ [PIdx i]) s1 t' _
+                            (inv1_rinv _ _ _ (XIc E t' nodes occs fpath (p ++ [PIdx i]) x s1))
+                            (IHc E t' nodes occs fpath (p ++ [PIdx i]) x s1)) l0 i0 s0);
+          destruct (items_loop c l0 i0 s0) as [ys s'|e s'|]; cbn in HL |- *; auto
+        end.
+        destruct HL as [es [H1 H2]]. exists es. split; [exact H1|].
+        eapply Forall_impl; [|exact H2]. intros e He. apply eokL_list. exact He.
+      * specialize (IHc E t' nodes occs fpath p v s).
+        destruct (complete fuel E t' nodes occs fpath p v s) as [q s'|e s'|]; cbn in IHc |- *; auto.
+        destruct q; cbn; try exact IHc. exact I.
+    + (* exec_object *)
+      intros E obj occs p src s. cbn [exec_object].
+      destruct (collect_all fuel (en_S E) (en_D E) (en_vars E) obj (map oc_sub occs) [] []) as [g|] eqn:Eg; [|exact I].
+      assert (Hn : NoDup (map fst g)) by (eapply collect_all_keys_nodup; [exact Eg|constructor]).
+      specialize (IHg E obj src g p s Hn).
+      destruct (exec_groups fuel E obj src g p s) as [fs s'|e s'|]; cbn in IHg |- *; auto.
+    + (* exec_groups *)
+      intros E obj src g p s Hn. cbn [exec_groups].
+      destruct g as [|[k occs] rest]; [apply eres_ok_nil|].
+      pose proof (exec_field_eres fuel E obj src k occs p s
+                       (fun t nodes occs0 fpath p0 v s0 => IHc E t nodes occs0 fpath p0 v s0)
+                       (fun q s0 b H0 => IHd E q s0 b H0)) as Hthis.
+      cbn [map fst] in Hn. inversion Hn as [|? ? Hk Hn']; subst.
+      destruct (exec_field fuel (complete fuel E) (dethunk fuel E) E obj src k occs p s) as [y s'|e s'|];
+        cbn in Hthis |- *; auto.
+      destruct Hthis as [es1 [E1 F1]].
+      specialize (IHg E obj src rest p s' Hn'). specialize (PAg E obj src rest p s' Hn').
+      destruct (exec_groups fuel E obj src rest p s') as [ys s''|e s''|]; cbn in IHg, PAg |- *; auto.
+      destruct IHg as [es2 [E2 F2]]. destruct PAg as [G1 [G2 G3]].
+      exists (es1 ++ es2). rewrite E2, E1, app_assoc. split; [reflexivity|].
+      apply Forall_app. split.
+      * eapply Forall_impl; [|exact F1]. intros e He. destruct y as [q|]; [|contradiction].
+        apply eokF_head. exact He.
+      * eapply Forall_impl; [|exact F2]. intros e He. destruct y as [q|]; [|exact He].
+        apply eokF_tail; [|exact He]. intro Hin. apply Hk. apply G3. exact Hin.
+    + (* dethunk *)
+      intros E q s b Hq. cbn [dethunk].
+      destruct q as [|v|l|l|t nodes occs tp o].
+      * cbn. split; [auto|]. exists []. rewrite app_nil_r. split; constructor.
+      * cbn. split; [auto|]. exists []. rewrite app_nil_r. split; constructor.
+      * pose proof (Pos_list_inv _ _ Hq) as HL0.
+        pose proof (dethunk_list_errs (dethunk fuel E) (fun b0 x s0 H0 => IHd E x s0 b0 H0) l b 0%N s HL0) as HL.
+        destruct (dethunk_list (dethunk fuel E) l s) as [ys s'|e s'|]; cbn; auto.
+        destruct HL as [St [es [H1 H2]]]. split.
+        -- intros [|[k0|i] r] H; cbn in H |- *; try discriminate. apply (St (N.to_nat i) r). exact H.
+        -- exists es. split; [exact H1|].
+           eapply Forall_impl; [|exact H2]. intros e He. apply eokL_list. exact He.
+      * destruct (Pos_obj_inv _ _ Hq) as [Hn0 HF0].
+        pose proof (dethunk_fields_errs (dethunk fuel E) (fun b0 x s0 H0 => IHd E x s0 b0 H0) l b s HF0 Hn0) as HL.
+        destruct (dethunk_fields (dethunk fuel E) l s) as [ys s'|e s'|]; cbn; auto.
+        destruct HL as [_ [St [es [H1 H2]]]]. split; [exact St|]. exists es. split; [exact H1|exact H2].
+      * destruct (Pos_thunk_inv _ _ _ _ _ _ Hq) as [-> Hnn].
+        assert (Hc : eres (eok b) s (match o with
+                                 | OVal v => complete fuel E t nodes occs b b v s
+                                 | _ => XRaise {| e_path := b; e_nodes := nodes |} s
+                                 end) /\
+                     rinv b s (match o with
+                                 | OVal v => complete fuel E t nodes occs b b v s
+                                 | _ => XRaise {| e_path := b; e_nodes := nodes |} s
+                                 end) /\
+                     posr b (match o with
+                                 | OVal v => complete fuel E t nodes occs b b v s
+                                 | _ => XRaise {| e_path := b; e_nodes := nodes |} s
+                                 end)).
+        { destruct o; try (split; [exact I|split; [|exact I]]; cbn; split;
+                           [exists []; rewrite app_nil_r; split; constructor|apply prefix_refl]).
+          split; [apply IHc|split; [apply inv1_rinv; apply XIc|apply PAc]]. }
+        destruct Hc as [Hc [Rc Pc]].
+        pose proof (eres_catch b s t _ Rc Hc) as Hcatch.
+        pose proof (posr_catch b t _ Pc) as Pcatch.
+        destruct (catch_at t _) as [y s'|e s'|]; cbn in Hcatch, Pcatch |- *; [|exact I|exact I].
+        specialize (IHd E y s' b Pcatch).
+        destruct (dethunk fuel E y s') as [y' s''|e s''|]; cbn in IHd |- *; [|exact I|exact I].
+        destruct Hcatch as [es1 [E1 F1]]. destruct IHd as [St [es2 [E2 F2]]]. split.
+        -- intros [|[k0|i] r] H; cbn in H; discriminate.
+        -- exists (es1 ++ es2). rewrite E2, E1, app_assoc. split; [reflexivity|].
+           apply Forall_app. split; [|exact F2].
+           eapply Forall_impl; [|exact F1]. intros e [r [R1 R2]]. exists r. split; [exact R1|apply St; exact R2].
+Qed.
+
+(* C18: every error path of a completed request addresses a null of the data, at the path
+   itself or at one of its prefixes *)
+Theorem request_error_paths_null : forall fuel S D opn inputs root or tor d s,
+  request fuel S D opn inputs root or tor = RDone (Some d) s -> paths_ok (Some d) (st_errs s) = true.
+Proof.
+  intros fuel S D opn inputs root or tor d s H. unfold request in H.
+  destruct (get_operation D opn) as [op|]; [|discriminate].
+  destruct (root_type S op) as [rt|]; [|discriminate].
+  destruct (get_variable_values fuel S (o_vars op) inputs) as [[vars|e]|]; try discriminate.
+  destruct (collect fuel S D vars rt (o_sel op) [] []) as [[g v]|] eqn:Ec; [|discriminate].
+  set (E := {| en_S := S; en_D := D; en_vars := vars; en_or := or; en_tor := tor;
+               en_serial := match o_kind op with OpMutation => true | _ => false end |}) in *.
+  assert (Hkeys : NoDup (map fst g)) by (eapply collect_keys_nodup; [exact Ec|constructor]).
+  destruct (errs_inv fuel) as [_ [_ [Cg Cd]]]. destruct (pos_inv fuel) as [_ [_ [Ag _]]].
+  specialize (Cg E rt root g [] st0 Hkeys). specialize (Ag E rt root g [] st0 Hkeys).
+  destruct (exec_groups fuel E rt root g [] st0) as [fs s1|e s1|]; try discriminate.
+  cbn in Cg, Ag. destruct Cg as [es1 [E1 F1]]. destruct Ag as [G1 [G2 G3]].
+  assert (Hpos : Pos [] (QObj fs)) by (constructor; assumption).
+  specialize (Cd E (QObj fs) s1 [] Hpos).
+  destruct (dethunk fuel E (QObj fs) s1) as [q s2|e s2|]; try discriminate.
+  injection H as Hd Hs. subst d s. cbn in Cd. destruct Cd as [St [es2 [E2 F2]]].
+  unfold paths_ok. apply forallb_forall. intros e He. rewrite E2, E1 in He.
+  assert (Hok : eok [] q e).
+  { apply in_app_or in He. destruct He as [He|He].
+    - rewrite Forall_forall in F1. destruct (F1 e He) as [r [R1 R2]]. exists r. split; [exact R1|apply St; exact R2].
+    - rewrite Forall_forall in F2. apply F2. exact He. }
+  destruct Hok as [r [R1 R2]]. cbn [app] in R1. rewrite R1. apply qnull_to_resp. exact R2.
+Qed.
+Print Assumptions request_error_paths_null.
+
+(* The two theorems are not vacuous: a query whose list field is deferred, whose second item has
+   a field that is deferred and fails, with an aliased second occurrence of the same field.  The
+   request completes with data, five invocations and one error, whose path addresses the null. *)
+Definition ex_schema : schema :=
+  {| s_types := [("Q", TObject [{| f_name := "a"; f_args := []; f_type := TNamed "Int" |};
+                                {| f_name := "l"; f_args := []; f_type := TList (TNonNull (TNamed "Q")) |}] []);
+                 ("Int", TScalar SInt)];
+     s_query := "Q"; s_mutation := None |}.
+Definition ex_doc : document :=
+  {| d_ops := [{| o_kind := OpQuery; o_name := None; o_vars := [];
+                  o_sel := [SField 0%N None "l" [] []
+                                   [SField 1%N (Some "x") "a" [] [] []; SField 2%N None "a" [] [] []]] |}];
+     d_frags := [] |}.
+Definition ex_oracle : oracle := fun p =>
+  match p with
+  | [PKey "l"] => Some (OThunk (OVal (RList [RObj 1%N "Q"; RObj 2%N "Q"])))
+  | [PKey "l"; PIdx 1%N; PKey "a"] => Some (OThunk OErr)
+  | _ => Some (OVal (RInt 7))
+  end.
+
+Example paths_nonvacuous :
+  exists s,
+    request 10 ex_schema ex_doc None [] (RObj 0%N "Q") ex_oracle (fun _ => Some "Q")
+    = RDone (Some (PObj [("l", PList [PObj [("x", PLeaf (JInt 7)); ("a", PLeaf (JInt 7))];
+                                      PObj [("x", PLeaf (JInt 7)); ("a", PNull)]])])) s /\
+    map c_path (st_calls s) = [[PKey "l"]; [PKey "l"; PIdx 0%N; PKey "x"]; [PKey "l"; PIdx 0%N; PKey "a"];
+                               [PKey "l"; PIdx 1%N; PKey "x"]; [PKey "l"; PIdx 1%N; PKey "a"]] /\
+    map e_path (st_errs s) = [[PKey "l"; PIdx 1%N; PKey "a"]].
+Proof. eexists. split; [vm_compute; reflexivity|split; reflexivity]. Qed.
